@@ -1,6 +1,84 @@
 """Small syntactic obligations that do not fit elsewhere."""
+import re
+
 from . import rsparse as rp, syn
 from .common import DISCHARGED, FAILED, UNDECIDED, Obligation, Undecided
+
+ZEROS = {"T::zero()", "0.0", "Complex::zero()", "T::coerce(0.0)", "0.0f64", "0.0f32", "T::zero"}
+
+
+def _norm(t):
+    return t.replace(" ", "")
+
+
+def classify_fill(body, field, value_ok):
+    """How does `body` (a fn body) treat the per-channel storage `self.<field>`?
+    -> 'all' (every element of every channel set to an accepted value), 'partial' (a restricted range / count), 'none', 'unknown'"""
+    tgt = "self." + field
+    verdict = "none"
+    for st in body[1] + ([("expr", body[2], False, 0)] if body[2] is not None else []):
+        txt = _norm(rp.show(st))
+        if _norm(tgt) not in txt:
+            continue
+        e = rp.strip_paren(st[1]) if st[0] == "expr" else None
+        if e is None:
+            verdict = "unknown"
+            continue
+        restricted = bool(re.search(r"\.take\(|\.skip\(|\.step_by\(|\[[^\]]*\.\.[^\]]*\]", txt))
+        ok = False
+        # forms over the whole storage
+        def inner_all(x, var):
+            """x sets every element of `var` (one channel) to an accepted value"""
+            t = _norm(rp.show(x))
+            for z in ZEROS if value_ok is None else value_ok:
+                zz = _norm(z)
+                if t in ("%s.fill(%s)" % (var, zz), "%s.iter_mut().for_each(|s|*s=%s)" % (var, zz)):
+                    return True
+                if re.fullmatch(re.escape(var) + r"\.iter_mut\(\)\.for_each\(\|[a-z_]+\|\*[a-z_]+=" + re.escape(zz) + r"\)", t):
+                    return True
+            if x[0] == "for" and _norm(rp.show(x[2])) in (var + ".iter_mut()", "&mut" + var) and len(x[3][1]) + (1 if x[3][2] is not None else 0) == 1:
+                b = x[3][1][0] if x[3][1] else ("expr", x[3][2], False, 0)
+                bt = _norm(rp.show(b))
+                v_ = x[1][2][0] if x[1][2] else "?"
+                return any(bt == "*%s=%s" % (v_, _norm(z)) for z in (ZEROS if value_ok is None else value_ok))
+            return False
+        if value_ok is not None:
+            # flat storage (the mask): fill / for_each / for / the crate's own helper
+            ok = inner_all(e, _norm(tgt)) or txt == "update_mask_from_buffers(&mut%s)" % _norm(tgt)
+        elif e[0] == "mcall" and e[2] == "for_each" and _norm(rp.show(e[1])) == _norm(tgt) + ".iter_mut()" and e[3] and rp.strip_paren(e[3][0])[0] == "closure":
+            cl = rp.strip_paren(e[3][0])
+            var = cl[2][0] if cl[2] else "?"
+            body_ = rp.strip_paren(cl[3])
+            if body_[0] == "block" and len(body_[1]) + (1 if body_[2] is not None else 0) == 1:
+                body_ = rp.strip_paren((body_[1][0][1] if body_[1] else body_[2]))
+            ok = inner_all(body_, var)
+        elif e[0] == "for" and _norm(rp.show(e[2])) in (_norm(tgt) + ".iter_mut()", "&mut" + _norm(tgt)):
+            var = e[1][2][0] if e[1][2] else "?"
+            items = e[3][1] + ([("expr", e[3][2], False, 0)] if e[3][2] is not None else [])
+            if len(items) == 1:
+                x = rp.strip_paren(items[0][1]) if items[0][0] == "expr" else items[0]
+                ok = inner_all(x, var)
+        if ok and not restricted:
+            verdict = "all"
+        elif restricted:
+            return "partial"
+        elif verdict != "all":
+            verdict = "unknown"
+    return verdict
+
+
+def storage_obligation(T, fn, body, field, label, mask=False):
+    v = classify_fill(body, field, ["true"] if mask else None)
+    name = "%s.reset :: %s" % (T, label)
+    if v == "all":
+        return Obligation(name, "syntactic", DISCHARGED, 0.0, "complete", [fn], checks=1)
+    if v in ("partial", "none"):
+        return Obligation(name, "syntactic", FAILED, 0.0, "complete", [fn], checks=1,
+                          detail="reset() %s `self.%s`: a reset resampler is not identical to a fresh one" % (
+                              "only re-initialises part of" if v == "partial" else "does not re-initialise", field))
+    return Obligation(name, "syntactic", UNDECIDED, 0.0, "complete", [fn], checks=1,
+                      detail="reset() touches `self.%s` in a form the recogniser does not know" % field)
+
 
 FFT_STORAGE = {"FftFixedIn": ["overlaps", "input_buffers"], "FftFixedOut": ["overlaps", "output_buffers"], "FftFixedInOut": ["overlaps"]}
 
@@ -14,17 +92,9 @@ def fft_reset_stage(scratch, tier, log):
         fn = T + "::reset"
         try:
             sig, body, l0, _ = rp.find_fn(src, "reset", ["Resampler", "for " + T + "<"])
-            stm = [norm(rp.show(st)) for st in body[1]] + ([norm(rp.show(body[2]))] if body[2] is not None else [])
-            for f in fields + ["channel_mask"]:
-                if f == "channel_mask":
-                    want = "self.channel_mask.iter_mut().for_each(|val| *val = true)"
-                    label = "C10 reset() re-activates every channel"
-                else:
-                    want = "self.%s.iter_mut().for_each(|ch| ch.iter_mut().for_each(|s| *s = T::zero()))" % f
-                    label = "C10 reset() zeroes every sample of every channel's `%s`" % f
-                ok = norm(want) in stm
-                obs.append(Obligation("%s.reset :: %s" % (T, label), "syntactic", DISCHARGED if ok else FAILED, 0.0, "complete", [fn], checks=1,
-                                      detail="" if ok else "reset() does not contain `%s`: stale samples survive a reset" % want))
+            for f in fields:
+                obs.append(storage_obligation(T, fn, body, f, "C10 reset() zeroes every sample of every channel's `%s`" % f))
+            obs.append(storage_obligation(T, fn, body, "channel_mask", "C10 reset() re-activates every channel", mask=True))
         except (rp.ParseError, Undecided) as e:
             obs.append(Obligation("%s.reset :: storage zeroed" % T, "extraction", UNDECIDED, detail=str(e), functions=[fn]))
     return obs
